@@ -138,12 +138,12 @@ def e2e_chunk_late_reply(ctx, runs, par):
         ctx.broken.append(("correspondence: the sx binary does not build", out[-1500:]))
         return
     hdir = os.path.join(verif.ROOT, "harness")
-    rc, out = verif.sh(["go", "build", "-o", os.path.join(hdir, "bin", "lateresp"), "./cmd/lateresp"], env=verif.GOENV,
+    rc, out = verif.sh(["go", "build", "-o", os.path.join(verif.HBIN, "lateresp"), "./cmd/lateresp"], env=verif.GOENV,
                        cwd=hdir, timeout=600)
     if rc != 0:
         ctx.skipped.append("e2e chunk/late-reply stage: helper does not build")
         return
-    rc, out = verif.sh([os.path.join(verif.ROOT, "bin", "e2e-chunk-late-reply"), sx, os.path.join(hdir, "bin", "lateresp"),
+    rc, out = verif.sh([os.path.join(verif.ROOT, "bin", "e2e-chunk-late-reply"), sx, os.path.join(verif.HBIN, "lateresp"),
                         str(runs), str(par), os.path.join(ctx.work, "e2e")], timeout=600)
     rows = []
     for line in out.splitlines():
